@@ -1,6 +1,7 @@
 //! `vh` — the Rust side of the correspondence check.  Each sub-command reads a line protocol on
 //! stdin, runs the *real* calloop built from /repo's working tree (with `--cfg calloop_verif`),
 //! and prints one observation line per effect on stdout.
+mod asyncio;
 mod chansched;
 mod core;
 mod execsched;
@@ -20,6 +21,7 @@ fn main() {
         "pingsched" => pingsched::run(),
         "chansched" => chansched::run(),
         "sig" => sig::run(),
+        "asyncio" => asyncio::run(),
         "execsched" => execsched::run(),
         "runsched" => runsched::run(),
         "timing" => timing::run(),
